@@ -23,7 +23,7 @@ func init() {
 		Assume:    []string{"sequentially consistent atomics", "for the loading store only Hits+Misses==calls and Hits<=calls are checked (a caller that joins another caller's load is counted as a miss by the code and is neither clearly a hit nor a miss in the statement)"},
 		Quick: []Scenario{
 			cnt("s1-3x2", 60), cnt("s2-3x1", 60), cnt("s2-2x2", 60),
-			bfs("views-ttl", 8, "", 60), bfs("edges", 8, "7", 60), bfs("rearm", 8, "8", 60), bfs("refused", 4, "7", 60), bfs("loading", 4, "7", 60), bfs("ttl-mix", 8, "8", 60), bfs("loader-ttl", 8, "8", 60), bfs("m1-ttl", 8, "8", 60),
+			bfs("views-ttl", 8, "8", 60), bfs("edges", 8, "7", 60), bfs("rearm", 8, "7", 60), bfs("loader-ttl", 8, "8", 60),
 			mk("V1-hit-miss", 8, "2", 60), mk("V2-pressure", 8, "2", 60), mk("V3-loading", 8, "2", 60), mk("V4-load-vs-set", 6, "2", 60), mk("V7-concurrent-wait", 8, "2", 60), mk("V5c-same-key-reset-after-expiry", 8, "2", 60), mk("V5b-pool-same-key-reuse-expiry", 8, "2", 60), mk("V6p-pool-delete-reset", 8, "2", 60), mk("V8-gets-around-the-deadline", 8, "2", 60), mk("V8L-loading-gets-around-the-deadline", 8, "2", 60),
 		},
 		Thorough: []Scenario{
